@@ -253,7 +253,43 @@ def circ_worker(job):
             import random as _r
             from moPepGen import fake
             circ = None
+            if rng.random() < 0.5:
+                # a SHORT circle with records next to its start codons: peptides run through the
+                # back-splice junction and through several passes
+                try:
+                    circ = gen_ref.small_circ(anno, tx_id, rng)
+                except Exception:   # noqa
+                    circ = None
+                if circ is not None:
+                    out['stats']['small_circ'] = 1
+                    tm = anno.transcripts[tx_id]
+                    tseq = str(tm.get_transcript_sequence(genome[tm.transcript.chrom]).seq)
+                    # (records on the first bases of a fragment fall under the command's own +3 rule for
+                    # circRNA fragments: kept away from the fragment ends)
+                    pos = gen_ref.circ_positions(anno, tx_id, circ, margin=7)
+                    atgs = [p_ for p_ in pos if tseq[p_:p_ + 3] == 'ATG']
+                    seen = {r.id for r in recs}
+                    for _ in range(rng.randint(1, 3)):
+                        if not pos:
+                            break
+                        if atgs and rng.random() < 0.6:
+                            p_ = rng.choice(atgs) + rng.choice([-6, -4, -3, -2, 3, 4, 5, 6, 8])
+                        else:
+                            p_ = rng.choice(pos)
+                        if p_ not in pos:
+                            continue
+                        try:
+                            rec = gen_ref.small_variant(anno, genome, tx_id, p_,
+                                                        rng.choice(['SNV', 'INS', 'DEL', 'DEL']),
+                                                        rng.choice([1, 1, 2, 3]), rng)
+                        except Exception:   # noqa
+                            rec = None
+                        if rec is not None and rec.id not in seen:
+                            seen.add(rec.id)
+                            recs.append(rec)
             for _ in range(10):
+                if circ is not None:
+                    break
                 _r.seed(rng.randrange(1 << 30))
                 try:
                     circ = fake.fake_circ_rna_model(anno, tx_id, 0.25)
